@@ -1,9 +1,7 @@
 import PysamlModel.Props.C16
 #print axioms C16.C16_confidential_assertion
-#print axioms C16.C16_confidential_advice_partial
-#print axioms C16.C16_confidential_advice_counterexample
-#print axioms C16.C16_issued_partial
-#print axioms C16.C16_issued_counterexample
+#print axioms C16.C16_confidential_advice
+#print axioms C16.C16_issued
 #print axioms C16.C16_key_of_recipient
 #print axioms C16.C16_ops_ordered
 #print axioms C16.C16_signature_order
@@ -11,5 +9,4 @@ import PysamlModel.Props.C16
 #print axioms C16.C16_wrong_key
 #print axioms C16.C16_corrupt
 #print axioms C16.C16_recoverable
-#print axioms C16.C16_model_meets_spec_partial
-#print axioms C16.C16_model_meets_spec_counterexample
+#print axioms C16.C16_model_meets_spec
